@@ -32,7 +32,7 @@ def _watch_progress():
                     box = children[i] if isinstance(i, int) and i < len(children) else None
                 if box is not None:
                     chain.append(type(box).__name__)
-                raise NoProgress('>'.join(chain[-2:]))
+                raise NoProgress('>'.join(chain[-3:]))
         return result
     remake_page._verif_wrapped = True
     remake_page._seen = seen
